@@ -40,6 +40,34 @@ def observe(tree, beam, sub):
     return obs
 
 
+def observe_batched(trees, beams, sub):
+    """Vectorised run: one real lattice whose parameters / beam carry a batch dimension; returns one observation per entry."""
+    nb = len(trees)
+    seg = zl.build_batched(trees)
+    b = zl.build_beam_batched(beams)
+    out, flat = seg.track(b), seg.flattened()
+    flat_out, fold_out = flat.track(b), fold_track(seg, b)
+    try:
+        ln = seg.length
+    except TypeError:
+        ln = None
+    sc = seg.subcell(sub[0], sub[1]) if sub is not None else None
+    sc_out = sc.track(b) if sc is not None else None
+    res = []
+    for i in range(nb):
+        obs = {"out": zl.observe_beam_entry(out, i, nb), "flat_out": zl.observe_beam_entry(flat_out, i, nb),
+               "fold_out": zl.observe_beam_entry(fold_out, i, nb), "skip": bool(seg.is_skippable),
+               "flat_names": [e.name for e in flat.elements]}
+        if ln is None:
+            obs["len"] = None
+        else:
+            t = ln.detach()
+            obs["len"] = zl._ints(t[i] if t.dim() > 0 and t.shape[0] > 1 else (t[0] if t.dim() > 0 else t))
+        obs["sub"] = None if sc is None else {"names": [e.name for e in sc.elements], "out": zl.observe_beam_entry(sc_out, i, nb)}
+        res.append(obs)
+    return res
+
+
 def fold_track(e, b):
     import cheetah
     if isinstance(e, cheetah.Segment):
@@ -77,6 +105,35 @@ def structural(run, n_cases, depth):
     while len(cases) < n_cases and tries < n_cases * 4:
         tries += 1
         tree, beam, sub = gen_case(run.rng, depth)
+        if run.rng.random() < 0.3:
+            # vectorised variant: nb settings of the same lattice in one batch, checked entry by entry
+            nb = run.rng.choice([2, 3])
+            trees = [tree] + [zl.vary_tree(run.rng, tree) for _ in range(nb - 1)]
+            beams = [beam] * nb
+            if run.rng.random() < 0.5:
+                import copy as _c
+                beams = [beam]
+                for _ in range(nb - 1):
+                    b2 = _c.deepcopy(beam)
+                    b2["E"] = run.rng.choice([1, 2, 3, 5])
+                    if b2["type"] == "parts":
+                        b2["ps"] = [[run.rng.randrange(-3, 4) for _ in range(6)] + [1] for _ in b2["ps"]]
+                    else:
+                        b2["mu"] = [run.rng.randrange(-3, 4) for _ in range(6)] + [1]
+                    beams.append(b2)
+            try:
+                obss = observe_batched(trees, beams, sub)
+            except zl.Inexact:
+                run.count("discarded_inexact")
+                continue
+            run.count("vectorised_batch_%d" % nb)
+            for t_i, b_i, obs in zip(trees, beams, obss):
+                run.add_case([zl.shape_sig(t_i), b_i["type"], t_i, b_i, "vec"], len(zl.leaves(t_i)) >= 2)
+                if obs["out"] != obs["fold_out"] or obs["out"] != obs["flat_out"]:
+                    impl_fail.append(len(cases))
+                cases.append((t_i, b_i, sub, obs))
+                terms.append(coq_case(t_i, b_i, sub, obs))
+            continue
         try:
             obs = observe(tree, beam, sub)
         except zl.Inexact:
